@@ -524,6 +524,94 @@ def check_error_response_versions(ctx, rule='C16.R7'):
                       'the error response for a request that may not have been decoded is built with %s (the header of such a request may be missing or half read)' % txt)
     ctx.count('session_error_responses', n, 4)
 
+
+def fold_version_mapping(ctx, ct, conv, kv):
+    """protocol_version_to_kmip_version folded for every (major, minor) in 0..3 x 0..45 (so 1.10, 1.20 ... are included): {(major, minor): member}
+    for the pairs that map to a KMIPVersion; None when it cannot be folded.  (1.10 must not be read as 1.1.)"""
+    from ..fold import Folder, Version, Enum, Unfoldable, Raised
+    out = {}
+    try:
+        for maj in range(0, 4):
+            for mnr in range(0, 46):
+                f = Folder(steps=5000)
+                f.module = ct
+                f.enum_tables = {'KMIPVersion': list(kv)}
+                f.enum_values = {'KMIPVersion': dict(kv)}
+                try:
+                    r = f.call_function(conv, [Version(maj, mnr)], {})
+                except Raised:
+                    return None
+                if r is None:
+                    continue
+                if not (isinstance(r, Enum) and r.cls == 'KMIPVersion'):
+                    return None
+                out[(maj, mnr)] = r.name
+    except Unfoldable:
+        return None
+    ctx.count('version_pairs_folded', 4 * 46)
+    return out
+
+
+# response fields that the KMIP specification introduced after 1.0 and that the codec of this tree writes whenever they are set (no version test in
+# the writer): the engine is then the only place that can keep them from clients speaking an earlier version.  (class, constructor keyword) -> first version
+T_UNGATED_RESPONSE_FIELDS = {('LocateResponsePayload', 'located_items'): (1, 3)}
+
+
+def check_ungated_response_fields(ctx, m):
+    """C16.R11: a later-version response field whose writer has no version test is only set by the engine under a version test."""
+    from ..ttlv import Schema, VERSIONS, eval_guard
+    ctx.rule('C16.R11', 'a response field that was introduced after KMIP 1.0 and that the codec writes whenever it is set (reviewed table: Located Items of the Locate response, KMIP 1.3) is given a value by an engine handler only on paths where the protocol version of the request was tested to be at least the version that introduced it - or the writer has acquired a version test of its own: otherwise the field is sent to clients speaking an earlier version')
+    sch = Schema(ctx.src)
+    gated = set()
+    for ref, rf, wf in sch.codec_classes():
+        for (cname, kwd), _v in T_UNGATED_RESPONSE_FIELDS.items():
+            if ref[1] == cname:
+                W = sch.extract(ref, wf, 'write')
+                have = [v for v in VERSIONS if W.defined_under(v)]
+                for e in W.events:
+                    if e['ident'] == kwd and set(v for v in have if eval_guard(e['guards'], v)) != set(have):
+                        gated.add((cname, kwd))
+    n = 0
+    for name, fn in sorted(m.methods.items()):
+        g = None
+        for c in [x for x in walk_local(fn) if isinstance(x, ast.Call)]:
+            cn = (call_name(c) or '').split('.')[-1]
+            for k in c.keywords:
+                spec = T_UNGATED_RESPONSE_FIELDS.get((cn, k.arg))
+                if spec is None or (cn, k.arg) in gated:
+                    continue
+                if isinstance(k.value, ast.Constant) and k.value.value is None:
+                    continue
+                n += 1
+                if g is None:
+                    g = CFG(fn)
+                    rd = ReachingDefs(g)
+                from ..dataflow import node_of_expr
+                nd = node_of_expr(g, c)
+                # where the value is given: the constructor call itself, or the assignments of a local handed to it (None assignments do not count)
+                sites = [nd]
+                if isinstance(k.value, ast.Name):
+                    sites = [dn for _, v, dn in rd.reaching(nd, k.value.id) if dn is not None and not (isinstance(v, ast.Constant) and v.value is None)]
+                ok = bool(sites)
+                for sn in sites:
+                    tested = False
+                    for tt, lab in dominating_edges(g, sn):
+                        c_ = tt.stmt
+                        if isinstance(c_, ast.Compare) and len(c_.ops) == 1 and is_self_attr(c_.left, '_protocol_version') and isinstance(c_.comparators[0], ast.Call):
+                            try:
+                                b = fold_version(c_.comparators[0])
+                            except AnalysisError:
+                                continue
+                            opn = type(c_.ops[0]).__name__
+                            if (opn == 'GtE' and lab == 'T' and b >= spec) or (opn == 'Lt' and lab == 'F' and b >= spec) or (opn == 'Gt' and lab == 'T' and b >= (spec[0], spec[1] - 1)):
+                                tested = True
+                    ok = ok and tested
+                ctx.check(ok, 'C16.R11', 'KmipEngine.%s|%s(%s=) without a version test' % (name, cn, k.arg), m.site(c, fn), '%s is set only for versions >= %d.%d' % (k.arg, spec[0], spec[1]),
+                          '%s gives %s.%s a value without testing that the request speaks KMIP %d.%d or later, and the writer of %s emits the field whenever it is set: clients of earlier versions receive a field their version does not define' % (name, cn, k.arg, spec[0], spec[1], cn))
+    ctx.count('ungated_later_fields_set_by_engine', n)
+    if not n:
+        ctx.ok('C16.R11', ENGINE, 'no engine handler sets a field of the reviewed table %s' % sorted(T_UNGATED_RESPONSE_FIELDS))
+
 def run(ctx):
     src = ctx.src
     m = EngineModel(src)
@@ -618,32 +706,37 @@ def run(ctx):
     conv = get_function(ct, 'protocol_version_to_kmip_version')
     cg = CFG(conv)
     cparam = params(conv, skip_self=False)[0]
-    mapping = {}
     kv = enum_table(src, 'KMIPVersion')
-    for pn, lab in cg.exit.pred:
-        s = pn.stmt
-        if isinstance(s, ast.Return) and enum_member(s.value, 'KMIPVersion'):
-            maj = mnr = None
-            for t, l2 in dominating_edges(cg, pn):
-                p = cmp_parts(t.stmt)
-                if p and p[1] == 'Eq' and l2 == 'T' and isinstance(p[2], ast.Constant) and isinstance(p[0], ast.Attribute) \
-                        and isinstance(p[0].value, ast.Name) and p[0].value.id == cparam:
-                    if p[0].attr == 'major':
-                        maj = p[2].value
-                    elif p[0].attr == 'minor':
-                        mnr = p[2].value
-            if maj is None or mnr is None:
-                raise AnalysisError('unrecognised construct: guard chain of %s in protocol_version_to_kmip_version' % short(s))
-            if (maj, mnr) in mapping:
-                raise AnalysisError('two arms for version %s' % ((maj, mnr),))
-            mapping[(maj, mnr)] = enum_member(s.value, 'KMIPVersion')[1]
+    mapping = fold_version_mapping(ctx, ct, conv, kv)
+    if mapping is None:
+        mapping = {}
+        for pn, lab in cg.exit.pred:
+            s = pn.stmt
+            if isinstance(s, ast.Return) and enum_member(s.value, 'KMIPVersion'):
+                maj = mnr = None
+                for t, l2 in dominating_edges(cg, pn):
+                    p = cmp_parts(t.stmt)
+                    if p and p[1] == 'Eq' and l2 == 'T' and isinstance(p[2], ast.Constant) and isinstance(p[0], ast.Attribute) \
+                            and isinstance(p[0].value, ast.Name) and p[0].value.id == cparam:
+                        if p[0].attr == 'major':
+                            maj = p[2].value
+                        elif p[0].attr == 'minor':
+                            mnr = p[2].value
+                if maj is None or mnr is None:
+                    raise AnalysisError('unrecognised construct: guard chain of %s in protocol_version_to_kmip_version' % short(s))
+                if (maj, mnr) in mapping:
+                    raise AnalysisError('two arms for version %s' % ((maj, mnr),))
+                mapping[(maj, mnr)] = enum_member(s.value, 'KMIPVersion')[1]
     ctx.count('version_mapping_arms', len(mapping), 1)
     csite = '%s:%s protocol_version_to_kmip_version' % (CONTENTS, conv.lineno)
     for v in versions:
         want = 'KMIP_%d_%d' % v
         ctx.check(mapping.get(v) == want and kv.get(want) == float('%d.%d' % v), 'C16.R2', 'protocol_version_to_kmip_version|%d.%d' % v, csite,
                   '%s -> KMIPVersion.%s' % (v, want), 'supported version %s maps to %s (expected KMIPVersion.%s)' % (v, mapping.get(v), want))
-    ctx.check(len(set(mapping.values())) == len(mapping), 'C16.R2', 'protocol_version_to_kmip_version|injective', csite, 'mapping injective', 'two versions map to one KMIPVersion')
+    ctx.check(len(set(mapping.values())) == len(mapping), 'C16.R2', 'protocol_version_to_kmip_version|injective', csite, 'mapping injective', 'two versions map to one KMIPVersion: %s' % sorted(k for k in mapping if list(mapping.values()).count(mapping[k]) > 1)[:6])
+    extra_ = sorted(k for k in mapping if k not in versions)
+    ctx.check(not extra_, 'C16.R2', 'protocol_version_to_kmip_version|only-supported-versions-map', csite, 'no other (major, minor) pair maps to a KMIPVersion',
+              'version numbers the server does not support are decoded as supported ones: %s' % ['%d.%d -> %s' % (k[0], k[1], mapping[k]) for k in extra_][:6])
 
     # ---------------- R3
     hop = m.handler_op()
@@ -868,6 +961,7 @@ def run(ctx):
                       'the encoding version is updated in the same block as the engine call', 'the encoding version is not updated right after process_request')
     ctx.count('response_encode_sites', n_enc, 2)
     check_error_response_versions(ctx, 'C16.R7')
+    check_ungated_response_fields(ctx, m)
 
     # ---------------- R8 attributes
     ga = m.method('_get_attributes_from_managed_object')
